@@ -19,8 +19,9 @@ RUNS = {"quick": 1000000, "thorough": 6000000}
 CHUNK = {"quick": 500, "thorough": 2000}
 PROBES = ["straddles_chunk", "overlapping", "at_offset_0", "at_eof", "limit_inside_occurrence", "leading_zero_needle",
           "needle_len_1", "artifact_hit", "artifact_overlap", "artifact_eof_cut", "artifact_maxrange", "start_none",
-          "needle_longer_than_chunk"]
-RULE = ("seeded plans: haystack over a 1-3 symbol or random alphabet (len<=80), needle len 1-9 (incl. leading zero "
+          "needle_longer_than_chunk", "haystack_of_several_default_buffers"]
+RULE = ("seeded plans: haystack over a 1-3 symbol or random alphabet (len<=80; 2% of the plans use haystacks of 8-40 KiB with "
+        "needles planted around the multiples of 8192 and of B, B from 2 to 20000), needle len 1-9 (incl. leading zero "
         "bytes, planted copies), chunk knob B in 1..12 or around len, start_offset in {None after seek, 0, k}, "
         "max_offset 0 or around occurrences; ArtifactKit images with 0-4 planted self-referential headers; plus a "
         "systematic grid (binary haystacks <=10, needles <=3, B<=5, all start offsets). non-trivial = an occurrence "
@@ -44,9 +45,53 @@ _GRID = {"quick": 8, "thorough": 10}
 # ------------------------------------------------------------------------------------------- generation
 
 def generate(rng, tier, index):
-    if rng.random() < 0.25:
+    r = rng.random()
+    if r < 0.25:
         return _gen_artifact(rng)
+    if r < 0.27:
+        return _gen_big_needle(rng)
     return _gen_needle(rng)
+
+
+def _gen_big_needle(rng):
+    """Haystacks of several default-size buffers (described by seed/length, not spelled out) with planted needles around
+    the multiples of 8192 and of B: the chunk size the scanner uses has to be the one in force at call time."""
+    n = rng.choice([8193, 8200, 16384, 16390, 20000, 24577, rng.randint(8193, 40000)])
+    B = rng.choice([7, 100, 1000, 4096, 8191, 8193, 12000, 16384, 8192, rng.randint(2, 20000)])
+    nl = rng.choice([1, 2, 3, 4, 7, 9])
+    needle = bytes(rng.getrandbits(8) | 0x80 for _ in range(nl))
+    plants = []
+    for _ in range(rng.randint(1, 6)):
+        m = rng.choice([8192, 8192, B, B, 16384])
+        base = m * rng.randint(1, max(1, n // m))
+        plants.append(max(0, min(n - nl, base + rng.randint(-nl - 1, 2))))
+    plants += [rng.randint(0, n - nl) for _ in range(rng.randint(0, 3))]
+    scans = []
+    for _ in range(rng.randint(1, 3)):
+        st = rng.choice(["none", "zero", "zero", "k"])
+        start = None if st == "none" else 0 if st == "zero" else rng.randint(0, n)
+        seek = rng.choice([0, 0, rng.randint(0, n)])
+        mx = 0 if rng.random() < 0.6 else rng.randint(1, n + 3)
+        scans.append({"start": start, "seek": seek, "max": mx})
+    return {"kind": "needle", "hay": None, "hay_gen": {"seed": rng.getrandbits(24), "len": n, "plants": sorted(set(plants))},
+            "needle": hx(needle), "B": B, "scans": scans}
+
+
+def _hay_of(plan) -> bytes:
+    if plan.get("hay") is not None:
+        return unhx(plan["hay"])
+    from dst.storage.builder import prng_bytes
+    g = plan["hay_gen"]
+    needle = unhx(plan["needle"])
+    # filler bytes are < 0x80, needles are >= 0x80: occurrences are exactly the planted ones (and their overlaps)
+    hay = bytearray(b & 0x7F for b in prng_bytes(g["seed"], g["len"]))
+    for p_ in g["plants"]:
+        hay[p_:p_ + len(needle)] = needle
+    return bytes(hay[:g["len"]])
+
+
+def _hh(hay: bytes) -> str:
+    return hay.hex() if len(hay) <= 200 else f"<{len(hay)} bytes sha256:{__import__('hashlib').sha256(hay).hexdigest()[:12]}>"
 
 
 def _gen_needle(rng):
@@ -141,8 +186,12 @@ def systematic_plan(tier, index):
 # ------------------------------------------------------------------------------------------- oracle / execution
 
 def naive_find(hay: bytes, needle: bytes, start: int):
-    n = len(needle)
-    return [i for i in range(max(0, start), len(hay) - n + 1) if hay[i:i + n] == needle]
+    out = []
+    i = hay.find(needle, max(0, start))
+    while i != -1:
+        out.append(i)
+        i = hay.find(needle, i + 1)
+    return out
 
 
 def _scan_needle(res: Result, seam: IoSeam, hay: bytes, needle: bytes, B: int, scan: dict, plan_for_violation):
@@ -194,7 +243,7 @@ def _scan_needle(res: Result, seam: IoSeam, hay: bytes, needle: bytes, B: int, s
                     "before_start" if any(o < eff_start for o in got) else
                     "false_offset" if set(got) - set(true) else "missed")
             res.violate(("C15", "needle", "unlimited", kind, "nlen1" if n == 1 else "nlen>1"),
-                        f"iter_find_needle(hay={hay.hex()}, needle={needle.hex()}, B={B}, start={start}, "
+                        f"iter_find_needle(hay={_hh(hay)}, needle={needle.hex()}, B={B}, start={start}, "
                         f"seek={scan['seek']}) -> {got}, naive scanner -> {true}", plan_for_violation())
     else:
         if any(o < t < o + n for o in true for t in (mx,)):
@@ -205,12 +254,12 @@ def _scan_needle(res: Result, seam: IoSeam, hay: bytes, needle: bytes, B: int, s
         missed = [o for o in must if o not in got]
         if bogus:
             res.violate(("C15", "needle", "limited", "false_offset", "nlen1" if n == 1 else "nlen>1"),
-                        f"iter_find_needle(hay={hay.hex()}, needle={needle.hex()}, B={B}, start={start}, "
+                        f"iter_find_needle(hay={_hh(hay)}, needle={needle.hex()}, B={B}, start={start}, "
                         f"seek={scan['seek']}, max_offset={mx}) -> {got}; {bogus} are not occurrences at/after start",
                         plan_for_violation())
         elif missed:
             res.violate(("C15", "needle", "limited", "missed", "nlen1" if n == 1 else "nlen>1"),
-                        f"iter_find_needle(hay={hay.hex()}, needle={needle.hex()}, B={B}, start={start}, "
+                        f"iter_find_needle(hay={_hh(hay)}, needle={needle.hex()}, B={B}, start={start}, "
                         f"seek={scan['seek']}, max_offset={mx}) -> {got}; occurrences entirely before the limit "
                         f"not reported: {missed}", plan_for_violation())
 
@@ -280,7 +329,10 @@ def execute(plan: dict) -> Result:
     budget = Budget(200000)
     with IoSeam(buffer_size=B, budget=budget) as seam:
         if plan["kind"] == "needle":
-            hay, needle = unhx(plan["hay"]), unhx(plan["needle"])
+            hay, needle = _hay_of(plan), unhx(plan["needle"])
+            if plan.get("hay") is None:
+                res.probes["haystack_of_several_default_buffers"] += 1
+                budget.limit = 50 * len(hay) + 200000
             res.cases = len(plan["scans"])
             for k, scan in enumerate(plan["scans"]):
                 budget.used = 0
@@ -314,7 +366,11 @@ def execute(plan: dict) -> Result:
 def candidates(plan: dict):
     if plan["kind"] == "needle":
         yield from core.shrink_list(plan, ["scans"], min_len=1)
-        yield from core.shrink_hex(plan, ["hay"])
+        if plan.get("hay") is not None:
+            yield from core.shrink_hex(plan, ["hay"])
+        else:
+            yield from core.shrink_list(plan, ["hay_gen", "plants"], min_len=1)
+            yield from core.shrink_int(plan, ["hay_gen", "len"], toward=8193)
         yield from core.shrink_hex(plan, ["needle"], min_len=1)
         yield from core.shrink_int(plan, ["B"], toward=1)
         for i in range(len(plan["scans"])):
